@@ -204,6 +204,27 @@ class Ctx:
             (module, cfg, p.returncode, res.distinct, res.generated, wall))
         return res
 
+    def apalache(self, tla_file, args, timeout=300):
+        """Apalache run on spec/ind/<tla_file>; returns True iff 'The outcome is: NoError'."""
+        d = os.path.join(self.scratch, "apa%d" % len(self.checker_cmds))
+        os.makedirs(d, exist_ok=True)
+        shutil.copy(os.path.join(VERIF, "spec", "ind", tla_file), d)
+        e = dict(os.environ)
+        e["JAVA_TOOL_OPTIONS"] = "-Djava.io.tmpdir=%s" % d
+        t = time.time()
+        p = subprocess.run(["timeout", str(timeout), "apalache-mc", "check"] + list(args) + [tla_file], cwd=d, env=e,
+                           capture_output=True, text=True)
+        out = p.stdout + p.stderr
+        ok = "The outcome is: NoError" in out
+        log("apalache %s %s: %s %.1fs" % (tla_file, " ".join(args), "NoError" if ok else "FAILED", time.time() - t))
+        self.checker_cmds.append("apalache-mc check %s %s" % (" ".join(args), tla_file))
+        if p.returncode == 124:
+            raise Inconclusive("apalache timeout on %s" % tla_file)
+        if not ok:
+            raise Inconclusive("apalache did not prove %s %s:\n%s" % (tla_file, args, out[-1500:]))
+        self.extra["apalache_obligations_discharged"] = self.extra.get("apalache_obligations_discharged", 0) + 1
+        return ok
+
     def tlc_model(self, module, cfg, **kw):
         """TLC run that must be clean: a failure is a broken *specification* -> exit 2."""
         res = self.tlc(module, cfg, **kw)
